@@ -4,6 +4,7 @@
   its byte-level writer, and export as a byte-level read.
 -/
 import MW.Lemmas.KsRefineInstall
+import MW.Lemmas.SecretsInv
 import Mathlib.Tactic.SplitIfs
 namespace MW.KsRefine
 open MW MW.Model.Secrets MW.Model.KsCodec MW.Model.KsBytes MW.KsCodecL
@@ -111,6 +112,27 @@ theorem rep_conc {C : BCrypto} (L : Laws C) {ρ ρ' : PubVal} {db : DB} {t : Tre
     simp only [List.mem_map] at hx
     obtain ⟨e, he, rfl⟩ := hx
     exact ⟨e, he, rfl⟩
+
+theorem lastW_reverse (db : DB) (K : Key) : lastW db.reverse K = AMap.get db K := by
+  induction db with
+  | nil => rfl
+  | cons x r ih =>
+    rw [List.reverse_cons, lastW_append, ih, AMap.get_cons]
+    by_cases h : x.1 = K <;> simp [lastW, h]
+
+/-- every symbolic database whose keys are representable HAS a representing byte tree (for any public valuation):
+    the byte-level statements are about something in every such state -/
+theorem rep_exists (C : BCrypto) (L : Laws C) (ρ : PubVal) (db : DB) (hk : ∀ e ∈ db, KeyOk e.1.2) : ∃ t, Rep C ρ db t := by
+  have h := rep_conc L (ρ := ρ) (ρ' := ρ) db.reverse (rep_empty C ρ) (fun _ _ => rfl)
+    (fun e he => hk e (List.mem_reverse.mp he))
+  refine ⟨tinsAll (fun _ => []) (db.reverse.map (conc C ρ)), ⟨fun p kb => ?_, fun K hK => ?_⟩⟩
+  · rw [h.1 p kb]
+    cases unloc C p kb with
+    | none => rfl
+    | some K => simp only [Option.bind_some, get_putAll_lastW, lastW_reverse, AMap.get_nil, Option.or_none]
+  · cases hg : AMap.get db K with
+    | none => rw [hg] at hK; cases hK
+    | some v => exact hk _ (MW.Lemmas.SecretsInv.get_mem hg)
 
 /-- nextAddresses for one external address: the counter and the public key, in that order -/
 theorem newAddrB_eq (t : Tree) (id : Bytes) (next : Nat) (pkEnc : Bytes) (hpk : pkEnc ≠ []) :
